@@ -21,6 +21,8 @@
 (*                invalid for the owner as well)                           *)
 (*   NoHardenedFromPublic  an element that denotes a hardened child never  *)
 (*                gives the watcher a key                                  *)
+(*   (ObserveKey: observing a key object is a step that leaves every       *)
+(*                variable derivation reads unchanged - history independence)*)
 (*   Fields       depth = number of steps, fingerprint = that of the       *)
 (*                parent, child number >= 2^31 iff hardened, K = k*G,      *)
 (*                k = IL + k_par (mod n) in plain integer arithmetic       *)
@@ -88,7 +90,13 @@ StepBoth == /\ pend # NoTok /\ split /\ PendNeeds = <<>>
             /\ prevOwn' = own /\ n' = n + 1 /\ lastTok' = pend /\ pend' = NoTok
             /\ UNCHANGED <<H, split, splitAt>>
 
-Next == Choose \/ Answer \/ StepPriv \/ ToPublic \/ StepBoth
+\* asking a key object anything (address, serialization, hash, dump, ...) at any time leaves the key as it is;
+\* as an action of the machine this is a step that changes nothing that derivation reads
+ObsRes(res, o) == IF res.st = "ok" THEN Ok(Observe(res.val, o)) ELSE res
+ObserveKey == /\ \E o \in Observers : own' = ObsRes(own, o) /\ wat' = ObsRes(wat, o) /\ prevOwn' = ObsRes(prevOwn, o)
+              /\ UNCHANGED <<H, split, splitAt, n, pend, lastTok>>
+
+Next == Choose \/ Answer \/ StepPriv \/ ToPublic \/ StepBoth \/ ObserveKey
 Spec == Init /\ [][Next]_vars
 
 (* ----------------------------- invariants -------------------------------- *)
